@@ -137,7 +137,25 @@ var saOutcomes = []string{"A1", "A2", "A3", "A4", "A5", "A0", "R", "P111.0", "P0
 func gen(g *hx.Gen) {
 	r := g.R
 	letters := sauth.Letters()
-	emit := func(c sauth.Cfg, reqs []sauth.Req) { g.Emit("%s", sauth.Finish(c, reqs)) }
+	sauth.Init()
+	// the tables / switches C33's clauses index: method switch (failure accounting), MaxAuthTries values,
+	// source-address entry classes, peer address kinds
+	tables := sauth.NewTableCov()
+	tables.Define("method-switch", "none", "password", "keyboard-interactive", "publickey", "gssapi-with-mic", "other")
+	tables.Define("sa-entry", "eq", "ne", "in", "out", "bad")
+	tables.Define("addr-kind", "nil", "unix", "tcp")
+	tables.Define("max-auth-tries", "-1", "0", "1", "2", "3", "6")
+	defer func() { tables.Report(g) }()
+	emit := func(c sauth.Cfg, reqs []sauth.Req) {
+		line := sauth.Finish(c, reqs)
+		sauth.PairStats(g, c, reqs)
+		tables.Record(c, reqs)
+		tables.Hit("max-auth-tries", strconv.Itoa(c.MaxTries))
+		g.Emit("%s", line)
+	}
+	if g.N == 0 {
+		sauth.EmitPairs(g, emit)
+	}
 
 	// (1) failure accounting: histories of failing / free / partial / query requests around the limit
 	n1 := g.Count(3000, 70000)
